@@ -16,7 +16,8 @@ sets, one BFS per definition / per variable:
     (or the end of a leaf block when v is an output register) before any AssignBlock writing v
                                                               -> DiGraphLiveness / ...IRA / ...SSA
     (SSA: the arguments of a Phi are read on the edge coming from the predecessor that carries
-    their definition, the Phi line itself is only compared on its var_out).
+    their definition, the Phi line itself is only compared on its var_out; judged on the fresh SSA form
+    and on the SSA form after a copy propagation done by this check, buckets live:ssa-propagated:*).
 Contract read from the classes: reaching definitions are keyed by lvalue expression (memory lvalues
 syntactically), points (b, 0..len(b)); liveness is per AssignBlock var_in/var_out over ExprId and
 ExprMem elements -- only ExprId elements are demanded here; leaves that are blocks receive
@@ -281,6 +282,8 @@ def judge(graph, stats=None):
             blk = lv.blocks.get(b)
             if blk is None:
                 return ("live:%s:block-missing" % name, "no liveness record for block %s" % b)
+        for b, abs_ in sorted(prog_.blocks.items(), key=lambda kv: kv[0].key):
+            blk = lv.blocks[b]
             for i in range(len(abs_)):
                 for what, got, p in (("in", blk.infos[i].var_in, (b, i)), ("out", blk.infos[i].var_out, (b, i + 1))):
                     if what == "in" and i == 0 and b in skip_in0:
@@ -288,22 +291,41 @@ def judge(graph, stats=None):
                     g = set(x for x in got if cn(x) == "ExprId")
                     w = live[p]
                     if g != w:
+                        never = sorted((x for x in prog_.blocks if x not in lv.visited), key=lambda x: x.key)
+                        if never:
+                            # root cause: compute_liveness never visited some block at all
+                            return ("live:%s:block-never-computed" % name,
+                                    "compute_liveness never visited block(s) %s (successors of the first: %s); first "
+                                    "difference: var_%s of line %d of %s: path-based %s, computed %s"
+                                    % ([str(x) for x in never], [str(x) for x in prog_.allsucc[never[0]]], what, i, b,
+                                       sorted(map(str, w)), sorted(map(str, g))))
                         kind = "missing" if w - g else "extra"
                         return ("live:%s:%s" % (name, kind),
                                 "var_%s of line %d of %s: path-based %s, computed %s"
                                 % (what, i, b, sorted(map(str, w)), sorted(map(str, g))))
         return None
 
+    def compute(lv):
+        """run compute_liveness, recording which blocks it visits"""
+        lv.visited = set()
+        orig = lv.back_propagate_compute
+
+        def wrap(block):
+            lv.visited.add(block.loc_key)
+            return orig(block)
+        lv.back_propagate_compute = wrap
+        lv.compute_liveness()
+
     live0 = prog.liveness(set())
     lv = DiGraphLiveness(ircfg)
-    lv.compute_liveness()
+    compute(lv)
     r = cmp_live("base", lv, live0, prog)
     if r:
         fails.append(r)
     live1 = prog.liveness(out_regs)
     lv = DiGraphLivenessIRA(ircfg)
     lv.init_var_info(lifter)
-    lv.compute_liveness()
+    compute(lv)
     r = cmp_live("ira", lv, live1, prog)
     if r:
         fails.append(r)
@@ -325,13 +347,30 @@ def judge(graph, stats=None):
             live2 = prog2.liveness(out_regs, pp)
             lv = DiGraphLivenessSSA(ssa_cfg)
             lv.init_var_info(lifter)
-            lv.compute_liveness()
+            compute(lv)
             r = cmp_live("ssa", lv, live2, prog2, skip_in0=set(pp))
             if r:
                 fails.append(r)
             if stats is not None:
                 stats["ssa-graphs"] += 1
                 stats["ssa-phi-blocks"] += len(pp)
+            # the same on the SSA form after a copy propagation (uses of x replaced by y when x's definition is
+            # the copy x = y; Phi arguments untouched): Phi sources are then also read by ordinary lines, which
+            # is the shape DiGraphLivenessSSA sees inside IRCFGSimplifierSSA after PropagateExpressions
+            cfg3 = gg.copy_ircfg(ssa_cfg)
+            if gg.ssa_copy_propagate(cfg3):
+                prog3 = Prog(cfg3)
+                pp3 = phi_parents_oracle(prog3, cfg3)
+                if pp3 is not None:
+                    live3 = prog3.liveness(out_regs, pp3)
+                    lv = DiGraphLivenessSSA(cfg3)
+                    lv.init_var_info(lifter)
+                    compute(lv)
+                    r = cmp_live("ssa-propagated", lv, live3, prog3, skip_in0=set(pp3))
+                    if r:
+                        fails.append(r)
+                    if stats is not None:
+                        stats["ssa-propagated-graphs"] += 1
     elif stats is not None:
         stats["ssa:skipped-unreachable-blocks"] += 1
     return fails
@@ -387,7 +426,7 @@ class C38(Check):
 
     def run_shard(self, tier, seed, shard, nshards):
         res = ShardResult()
-        n = 2500 if tier == "thorough" else 260
+        n = 1500 if tier == "thorough" else 80
         structured = shard % 2 == 0
         strat = gg.graph(voc(), depth=3, max_blocks=10) if structured else gg.random_cfg(voc(), nblocks=(1, 6))
         cnt = [0]
